@@ -18,7 +18,7 @@ RULE = ('case = (base message: producer x recipient kind x cipher x body x compr
         'non-trivial = the mutation class produced at least one attempt whose outcome was an exception; distinct = distinct (base, class, part) descriptors')
 ASSUMPTIONS = ['the legacy-SED downgrade (tag 18 -> tag 9 rewrite) is outside the enumerated mutation classes (DESIGN.md C04 limits)',
                'cryptography/OpenSSL block ciphers, RSA, ECDH']
-MIN_COUNTERS = {'quick': {'attempts': 20000, 'bitflip_attempts': 12000, 'truncation_attempts': 1500, 'splice_attempts': 100, 'wrong_secret_attempts': 60, 'rejected': 15000},
+MIN_COUNTERS = {'quick': {'attempts': 20000, 'bitflip_attempts': 12000, 'truncation_attempts': 1500, 'splice_attempts': 100, 'wrong_secret_attempts': 60, 'rejected': 15000, 'cross_message_splices': 10},
                 'thorough': {'attempts': 150000}}
 BUDGET = {'quick': (600, 1500), 'thorough': (1800, 3600)}
 TECHNIQUE = 'runtime monitoring: exhaustive data-fault injection on ciphertexts (bit flips, truncations, splices, block and packet edits, wrong secrets) with a deterministic outcome oracle'
@@ -163,7 +163,7 @@ def attempt(ctx, pgpy, blob, secret, allowed, what, d, extra=None, counter=None)
         ctx.count('same_plaintext')
         return 'same'
     ctx.outcome('DIFFERENT-PLAINTEXT')
-    ctx.fail('wrong-secret-accepted' if counter == 'wrong_secret_attempts' else 'tampered-message-decrypted-to-different-plaintext', dict({'base': d, 'mutation': what, 'returned': hx(got)[:120] if got is not None else repr(dec)[:100],
+    ctx.fail('wrong-secret-accepted' if counter == 'wrong_secret_attempts' else 'parts-of-two-messages-decrypt-together' if counter == 'cross_message_splices' else 'tampered-message-decrypted-to-different-plaintext', dict({'base': d, 'mutation': what, 'returned': hx(got)[:120] if got is not None else repr(dec)[:100],
                                                                         'message': hx(blob)[:600]}, **(extra or {})))
     return 'different'
 
@@ -272,6 +272,20 @@ def run_case(ctx, d):
             attempt(ctx, pgpy, b''.join(esk + other_esk) + datapkt, secret, [data], 'foreign-esk-last', d)
             attempt(ctx, pgpy, datapkt + b''.join(esk), secret, [data], 'esk-after-data', d)
             attempt(ctx, pgpy, b''.join(esk) + datapkt + datapkt, secret, [data], 'data-twice', d)
+            if d['prod'] == 'pgpy':
+                # two messages PGPy encrypted on its own (it chose the session keys) to the same recipient with the same cipher:
+                # the session-key packet of one never opens the body of the other
+                import pgpy as _p
+                from pgpy.constants import SymmetricKeyAlgorithm as _S, CompressionAlgorithm as _C
+                pair = []
+                for txt in (b'message A: pay 10 EUR to alice', b'message B: pay 9999 EUR to mallory'):
+                    m_ = _p.PGPMessage.new(txt, format='b', compression=_C.Uncompressed)
+                    e_ = m_.encrypt(PW, cipher=getattr(_S, d['cipher'])) if secret[0] == 'pass' else secret[1].pubkey.encrypt(m_, cipher=getattr(_S, d['cipher']))
+                    pk_ = wire.split(bytes(e_))
+                    pair.append((b''.join(q.raw for q in pk_ if q.tag in (1, 3)), b''.join(q.raw for q in pk_ if q.tag == 18), txt))
+                attempt(ctx, pgpy, pair[0][0] + pair[1][1], secret, [], 'session-key-packet-of-A-with-body-of-B', d, None, 'cross_message_splices')
+                attempt(ctx, pgpy, pair[1][0] + pair[0][1], secret, [], 'session-key-packet-of-B-with-body-of-A', d, None, 'cross_message_splices')
+                attempt(ctx, pgpy, pair[0][0] + pair[0][1], secret, [pair[0][2]], 'message-A-reassembled', d)
             # plaintext packets smuggled in beside the encrypted one: the result is the true plaintext or an error, never the smuggled text
             evil = encwork.literal_packet(b'pay 9999 EUR to mallory', b'b', b'', 0)
             evil_z = wire.new_hdr(8, 1 + len(evil)) + b'\x00' + evil
